@@ -28,6 +28,26 @@ CLAIMS = {
   note="Not covered: data races through heap shared by aliasing, and every statement about interleavings. Known findings: the parse-error language global and the shared unseeded generator (both confirmed with go test -race).",
   ref="DESIGN.md §3 C11",
   tech="contract-based frame/effect obligations (writes-global, reads-immutable-global, no-shared-generator) discharged by dsvc's syntactic pass over the typed call graph"),
+ "C01": dict(
+  text="Proof (partial): panic-freedom obligations (nil dereference, index, slice bounds against cap, type assertion, integer division, make length, nil-map write, nil function call, explicit panic) are generated for every such site of every function under contract and discharged under the data-structure invariants wfValue/DictData/NativeFunctionData/customDice* (assumed on field read, re-established at every call, return and loop head). Covered: the whole VM dispatch loop evaluate (every opcode case, closures inlined, 2500+ obligations), roll_func.go, the parser's code-buffer and jump-patching helpers, the (de)serialisation entry points, value constructors/accessors, the operators. The bytecode/VM interface (operand types per opcode, stack height, open dice/detail/block state) is an explicit assumption discharged on the compiler side by C08.",
+  note="Functions not yet under contract are listed in the evidence under functions_outside (zero-annotation sweep: 330 open obligations, mostly missing preconditions on built-in methods). ValueMap (sync/atomic/unsafe) is outside the subset. Goroutine stack exhaustion by deep recursion, allocation volume, third-party totality: not expressible. Host callbacks are assumed to return normally, not to re-enter the running context and not to modify VM registers / operand stack. Termination: only loops with a decreases clause.",
+  ref="DESIGN.md §3 C01"),
+ "C02": dict(
+  text="Proof (partial): functional contracts of the binary/unary operators on integers, strings and arrays (two's-complement sums, truncated division, divide-by-zero error unless IgnoreDiv0, comparison results 0/1, null-coalescing, array concatenation cap), of getRealIndex/getClampRealIndex, and of the jump-patching helpers (OffsetPopAndSet/OffsetJmpSetX/BreakSet land on the stated target); structural obligations: binOperator[c-typeAdd] is the method named for opcode c and the table is immutable; every opcode a parser action can emit has a VM case; the VM side of the per-opcode stack-effect table (pops/pushes) is asserted for every case.",
+  note="Not covered: agreement of whole programs with an independent semantics (needs a second semantics and a compiler-correctness proof), float numerics (uninterpreted), dict/array built-in methods, scoping across sub-VMs, precedence (the grammar is its own definition).",
+  ref="DESIGN.md §3 C02"),
+ "C07": dict(
+  text="Proof (partial): the operation counter never wraps (closure contract of numOpCountAdd: mathematical sum or saturation, error set when the limit is exceeded, non-negative counts at every call site); WriteCode either appends the instruction or records codeOverflow, which Parse turns into an error (no silent truncation); block/template nesting guards precede the fixed-size writes; range literals are capped at 512 with overflow-safe length; inner dice loops carry decreases clauses.",
+  note="Known findings (reported, not alarms): the exploding rounds of RollWoD / RollDoubleCross have no variant and are not charged to the budget. Not yet under contract: +100 per sub-VM call as recursion measure, the parse budget (panic(errMaxExprCnt) in generated code), memory volume of string doubling.",
+  ref="DESIGN.md §3 C07"),
+ "C09": dict(
+  text="Proof (partial): UnmarshalJSON returns an error or a well-formed value for every type tag (including unknown tags, unknown native names, null elements); ToJSONRaw errors on nil; VMValueFromJSON returns a non-nil pointer that is well-formed when err == nil.",
+  note="Not covered: the schema equality written==read per tag, cycle detection of dict values (ValueMap.ToJSON starts a fresh visited set; ValueMap is outside the subset), behavioural equivalence of a restored VM. encoding/json is an assumed external (writes through its target; for targets with UnmarshalJSON the method's contract is assumed).",
+  ref="DESIGN.md §3 C09"),
+ "C10": dict(
+  text="Proof (partial): (*VMValue).UnmarshalJSON ensures err == nil ==> wfValue(v) with the type tag among the ten known ones and no nil array element, for every input and every path (each return is a separate obligation); the decoder may leave *v ill-formed only when it returns an error (exempt clause). Operations on decoded values are covered by the C01 obligations, whose only assumption on values is the same invariant.",
+  note="ValueMap.UnmarshalJSON (dict values) is outside the subset (sync/atomic); its null check is covered only by the structure of the fix. json.Unmarshal is an assumed external. The crash-freedom of built-in methods on decoded values is covered as far as C01 covers those functions.",
+  ref="DESIGN.md §3 C10"),
 }
 
 props = [json.loads(l)["id"] for l in open("/verif/properties.jsonl")]
